@@ -9,7 +9,7 @@ LEVEL_TEXT = ("For every enumerated degree distribution (given directly as array
               "mean-field = individual-based = homogeneous mean-field, SIS and SIR. The measured maximum deviation is written to the evidence.")
 LEVEL_NOTE = "tolerance 2e-5 N on horizons <= 3 (10 thorough) time units (a wrong factor in a right-hand side moves curves by >=1e-3 N); agreement only where the property asserts it"
 RULE = "one evaluation = one (distribution/graph, rho, rates, grid) on which all models of a family are compared; distinct by those parameters; all are non-trivial (rho>0, at least one edge)"
-BOUNDS = {"quick": "histograms kmax<=3, counts<=2 with <=3 occupied classes; all graph shapes on 4,5 nodes; regular graphs C3-C8,K4,K5,K33,prism,cube,2C3,K2; rho in {0.05,0.2,0.5}; 3 rate pairs",
+BOUNDS = {"quick": "histograms kmax<=3, counts<=2 with <=3 occupied classes; all graph shapes on 4,5 nodes; regular graphs C3-C8,K4,K5,K33,prism,cube,2C3,K2; rho in {0.05,0.2,0.5}; 3 rate pairs; 4 graphs with self-loops and/or parallel edges (MultiGraph); 5 graphs analysed again after an in-place rewiring and an in-place edge addition of the same graph object",
           "thorough": "histograms kmax<=4, counts<=3; adds Petersen; tmax 10; 5 rate pairs"}
 ASSUMPTIONS = ["solver accuracy of odeint/vode"]
 
